@@ -23,6 +23,14 @@ CLAIMS = {
                 technique="TLA+ decision-table spec + TLA+ state-machine spec model-checked with TLC; TLC-exported cases and behaviours executed on the real provider; observations validated by TLA+ monitors",
                 note="Trusted: TLC; injective concretisation of URI records (harness/tbldrv/redirect.go); harness store; projection of Location / form action. "
                      "Glob semantics modelled for three patterns (host label, path suffix, port). Bounds: RedirectURIDesign_*.cfg, OPDesign_authorize*.cfg."),
+    "C06": dict(level="model_checking", ref="DESIGN.md §3 C06",
+                text="Issuance family of OP.tla (rules C06.*, evaluated on every event of every family that returns tokens): each ID token / JWT access "
+                     "token of every flow (code, implicit, refresh, device, client credentials, jwt-bearer, token exchange access/refresh/id) on both routers, "
+                     "under signing algorithms RS256/RS384/PS256/ES256/ES384/ES512/EdDSA, is signed by the current key, passes the library's own "
+                     "rp.VerifyTokens / rp.VerifyIDToken / op.VerifyAccessToken against the provider's published /keys (through rp.NewRemoteKeySet), and its "
+                     "issuer, audience, azp, subject, nonce, auth_time, amr, lifetime, at_hash, c_hash, scope-gated user claims, opaque sealing, expires_in "
+                     "and scope agree with the abstract request state the monitor keeps. Design spec (OPDesign_issue.cfg) model-checked by TLC.",
+                technique="TLA+ design spec model-checked with TLC; MBT replay + trace validation by the TLA+ monitor (facts projected from real tokens, judged in TLA+)"),
     "C04": dict(level="model_checking", ref="DESIGN.md §3 C04",
                 text="TLC exhaustively checks the code-flow design spec (both routers' decision procedures, OPDesign_code.cfg) against the "
                      "declarative rules C04.* and validates every recorded history of the real provider (TLC-generated behaviours + seeded "
